@@ -2376,6 +2376,7 @@ package xpath
 //@   uses one-document
 //@ func (*groupQuery).Select
 //@   props C15 C13 C12
+//@   ensures[parenthesised-is-the-path@C13] (result != nil ==> k(g.Input) == old(k(g.Input)) + 1 && pos(result) == inAt(g.Input, old(k(g.Input)))) && (result == nil ==> k(g.Input) == slen(ref(g.Input), epoch(g.Input)))
 //@   theory stream for C13 C12
 //@   uses one-document
 //@   loop * invariant[cursor@C13] cur(t) == old(cur(t)) && pos(cur(t)) == old(pos(cur(t)))
